@@ -136,14 +136,16 @@ def r121(ctx, rid="R12.1"):
             if not (c.callee and c.callee.name == f"{VC}::update_spec"):
                 continue
             nsp += 1
-            recv, spec = render(fvn.expr(c.args[0])), render(fvn.expr(c.args[1]))
+            # the receiver by its variable name, the spec by its value (a `let fee_spec = policy.fee_velocity_control()` in between
+            # must not matter)
+            recv, spec = render(fvn.expr(c.args[0])), render(fnview(ctx, fb).expr(c.args[1]))
             is_fee = "fee_velocity_control" in recv
             ok = ("Policy::fee_velocity_control(" in spec) if is_fee else ("Policy::global_velocity_control(" in spec)
             ctx.ob(rid, ok, f"{fnm}/update_spec/{'fee' if is_fee else 'payment'}",
                    f"`{fnm}` re-specs the {'fee' if is_fee else 'payment'} velocity control `{recv[-40:]}` with `{spec[:70]}`: a spec of the "
                    "other kind does not match and resets the control (the counted amount is forgotten, the limit no longer binds)",
                    where=f"{fb.file}:{c.line}", sample="fee control <- policy.fee_velocity_control(), payment control <- policy.global_velocity_control()")
-    ctx.floor(rid, "update_spec calls in new_full / update_velocity_controls", nsp, 4)
+    ctx.floor(rid, "update_spec calls in new_full / update_velocity_controls", nsp, 2)
     # update_spec: reset only when !spec_matches
     ub = p.fn(f"{VC}::update_spec")
     uv = fnview(ctx, ub, policy=False)
